@@ -284,12 +284,66 @@ class _Stop(Exception):
 
 # ---- bounded end-to-end leg: the real solver ---------------------------------------------------------------------------------
 
+@contract(P, functions=[G + "glbfloor"], params=[dict(max_iter=m) for m in (None, 1, 2, 3)], budget_s=300, crosscheck=False,
+          scope="the driver loop of glbfloor against recorders of its callees (create_initial_allocation, optimize_allocation, must_be_refined / refine): "
+                "every sequence of refinement decisions, iteration limits 1..3 and none")
+def glbfloor_returns_the_last_optimised_allocation(S, max_iter):
+    """added after seeds C10-5/6: what glbfloor returns is always the output of an optimize_allocation call (never the raw initial
+    allocation), every optimisation after the first one works on the refinement of the previous result, and the loop stops exactly
+    when nothing must be refined or the limit is reached.  The feasibility of that output is the (assumed) solver contract + the
+    extract_solution obligations."""
+    o = opt()
+    log = []
+
+    class FakeAlloc:
+        def __init__(self, tag):
+            self.tag = tag
+
+        def must_be_refined(self, th):
+            asked = len([x for x in log if x[0] == 'must'])
+            b = bool(S.symbool(f"must_{asked}")) if asked < 3 else False        # at most three refinements are ever requested
+            log.append(("must", self.tag, b))
+            return b
+
+        def refine(self, th, levels=1):
+            log.append(("refine", self.tag))
+            return FakeAlloc(("refined", self.tag))
+
+    die = types.SimpleNamespace(netlist=types.SimpleNamespace(modules=[]))
+
+    def fake_opt(d, allocation, dispersions, threshold, alpha, dispersion_function, verbose=False, plotting_options=None):
+        k = len([x for x in log if x[0] == "opt"])
+        log.append(("opt", allocation.tag))
+        return d, FakeAlloc(("optimised", k)), dispersions, ([], [])
+    S.patch(o, "create_initial_allocation", lambda d, *a, **kw: FakeAlloc("initial"))
+    S.patch(o, "calculate_dispersions", lambda *a, **kw: {})
+    S.patch(o, "optimize_allocation", fake_opt)
+    out = S.call(o.glbfloor, die, 0.9, 0.3, max_iter=max_iter)
+    S.ensure("driver.no_raise", out.ok)
+    if not out.ok:
+        return
+    d2, al = out.value
+    opts = [x for x in log if x[0] == "opt"]
+    S.ensure("driver.at_least_one_optimisation", len(opts) >= 1 and opts[0][1] == "initial")
+    S.ensure("driver.returns_the_output_of_the_last_optimisation", d2 is die and isinstance(al, FakeAlloc) and al.tag == ("optimised", len(opts) - 1))
+    S.ensure("driver.every_later_optimisation_works_on_the_refinement_of_the_previous_result",
+             all(opts[k][1] == ("refined", ("optimised", k - 1)) for k in range(1, len(opts))))
+    musts = [x for x in log if x[0] == "must"]
+    S.ensure("driver.stops_when_nothing_must_be_refined_or_the_limit_is_reached",
+             all(m[2] for m in musts[:-1]) and (max_iter is None or len(opts) <= max_iter) and
+             (len(opts) == max_iter or (len(musts) >= 1 and musts[-1][2] is False)))
+
+
 DESIGNS = {
     "soft_and_fixed": ("8x4", "Modules: {S0: {area: 6, center: [2, 2]}, S1: {area: 4, center: [5, 2]}, F: {fixed: true, rectangles: [[7, 1, 2, 2]]}}\nNets: [[S0, F], [S0, S1, 2]]"),
     "soft_overlapping_fixed": ("8x4", "Modules: {S0: {area: 6, center: [6.5, 1.5]}, S1: {area: 4, center: [2, 2]}, F: {fixed: true, rectangles: [[7, 1, 2, 2]]}}\nNets: [[S0, F], [S0, S1]]"),
     "hard_L_flippable": ("6x6", "Modules: {H: {hard: true, flip: true, rectangles: [[2, 2, 2, 2], [3.5, 1.5, 1, 1]]}, S: {area: 5, center: [4, 4]}, F: {fixed: true, rectangles: [[5.5, 0.5, 1, 1]]}}\nNets: [[H, S], [S, F]]"),
     "hard_two_rects": ("6x6", "Modules: {H: {hard: true, rectangles: [[2, 2, 2, 2], [2, 3.5, 1, 1]]}, S: {area: 4, center: [4.5, 4]}}\nNets: [[H, S]]"),
     "blockage_and_fixed": ("width: 8\nheight: 6\nregions: [[1, 5, 2, 2, '#']]\n", "Modules: {S0: {area: 8, center: [3, 2]}, S1: {area: 6, center: [6, 4]}, F: {fixed: true, rectangles: [[7.5, 0.5, 1, 1]]}}\nNets: [[S0, S1], [S1, F]]"),
+    # added after seeds C10-5/6: modules that start on top of each other and nearly fill one cell of the initial grid (the initial allocation is
+    # over-occupied although nothing must be refined), and a die that is too small (the solver fails: glbfloor must not return)
+    "coincident_starts": ("4x4", "Modules: {A: {area: 3.9, center: [1, 1]}, B: {area: 3.85, center: [1, 1]}, C: {area: 3.9, center: [3, 3]}}\nNets: [[A, B, 2], [B, C]]"),
+    "does_not_fit": ("4x4", "Modules: {S1: {area: 7, center: [1, 3]}, S2: {area: 6, center: [3, 1]}, F1: {fixed: true, rectangles: [[3, 3, 2, 2]]}}\nNets: [[S1, S2], [S2, F1]]"),
 }
 
 
